@@ -57,7 +57,7 @@ def runChain {M : Type} [Inhabited M] (ops : ChainOps M) (callee : Prog) : Prog 
 def chainFn {M : Type} [Inhabited M] (ops : ChainOps M) (callee prog : Prog) (a : M) : M :=
   (runChain ops callee prog ((Array.replicate 32 default).set! 0 a))[1]!
 
-variable {F : Type} [FieldOps F] [DecidableEq F]
+variable {F : Type} [Add F] [Sub F] [Mul F] [Neg F] [Zero F] [One F] [FieldOps F] [DecidableEq F]
 
 instance : Inhabited (Jac F) := ⟨Jac.zero⟩
 
